@@ -187,6 +187,11 @@ def litOf : FTree → Option Int
   | .lit s => some s
   | _ => none
 
+/-- the `surfs`, `cellrefs`, `nodes` partition of a node's arguments in `pot_to_t4_cell` -/
+def crefsOf (args : List FTree) : List Nat := args.filterMap fun a => match a with | .cref c => some c | _ => none
+def nodesOf (args : List FTree) : List FTree := args.filter fun a => !a.isSurface && !a.isCref
+def nonCrefs (args : List FTree) : List FTree := args.filter fun a => !a.isCref
+
 /-- `convert_surface` -/
 def convertSurface (s : Int) (origin : List (Nat × Nat)) (st : CState) : Nat × CState :=
   match (st.surfCache.find? (·.1 == s)).map (·.2) with
@@ -233,8 +238,8 @@ def toT4 (env : CEnv) : Nat → FTree → List (Nat × Nat) → CState → Excep
     | .cref c => convertCellref env fuel c st
     | .node pid op args =>
       let surfs := args.filterMap litOf
-      let crefs := args.filterMap fun a => match a with | .cref c => some c | _ => none
-      let nodes := args.filter fun a => !a.isSurface && !a.isCref
+      let crefs := crefsOf args
+      let nodes := nodesOf args
       match op with
       | .inter => do
           let (pl, mi) := convEqua surfs
@@ -249,7 +254,7 @@ def toT4 (env : CEnv) : Nat → FTree → List (Nat × Nat) → CState → Excep
       | .union =>
           match largestPure args with
           | none => do
-              let (ids1, st1) ← toT4List env fuel (args.filter fun a => !a.isCref) origin st
+              let (ids1, st1) ← toT4List env fuel (nonCrefs args) origin st
               let (ids2, st2) ← cellrefList env fuel crefs st1
               let ids := (ids1 ++ ids2).filterMap id
               if ids.isEmpty then .ok (none, st2) else
